@@ -12,7 +12,9 @@ for id in "$@"; do
   git apply --check "$d/demo.diff" 2>/dev/null || { echo "== $id: demo.diff does not apply at $(git rev-parse --short HEAD)" | tee -a "$log"; continue; }
   # which test target?
   tdir=$(grep -E '^\+\+\+ b/tests/[^/]+/main.rs' "$d/demo.diff" | head -1 | sed -E 's|^\+\+\+ b/tests/([^/]+)/main.rs|\1|')
-  if [ -n "$tdir" ]; then
+  if [ -f "$d/demo_args" ]; then
+    args=$(cat "$d/demo_args")
+  elif [ -n "$tdir" ]; then
     args="--test $tdir"
   else
     tname=$(grep -E '^\+\s*(pub )?fn [a-z0-9_]+\(\)' "$d/demo.diff" | head -1 | sed -E 's/^\+\s*(pub )?fn ([a-z0-9_]+)\(\).*/\2/')
